@@ -255,6 +255,18 @@ class System:
         self.index = FileIndexer.FileIndex(self.fr)
         self.passes = list(self.index.genLogPasses())
 
+    def channel_list(self, chs):
+        """The caller's list object for a channel list: one object per list for the life of the system (a caller that keeps its
+        channel list and hands it to every load)."""
+        if chs is None:
+            return None
+        if not hasattr(self, 'chlists'):
+            self.chlists = {}
+        key = repr(list(chs))
+        if key not in self.chlists:
+            self.chlists[key] = list(chs)
+        return self.chlists[key]
+
     def canon(self):
         p = self.fr._prh
         def shape(lp):
@@ -264,7 +276,8 @@ class System:
                 return 'no frame set attribute'
         fs = tuple(shape(lp) for lp in self.passes)
         hidden = tuple(bfs.generic_state(lp.logPass._plan, depth=1) for lp in self.passes)
-        return fs + (p.stream.tell(), p._ldIndex, p._ldTell, p._mustReadHead, p.isEOF, p.prAttr & 3, p.ldLen, hidden)
+        lists = tuple(sorted((k, tuple(v)) for k, v in getattr(self, 'chlists', {}).items()))
+        return fs + (p.stream.tell(), p._ldIndex, p._ldTell, p._mustReadHead, p.isEOF, p.prAttr & 3, p.ldLen, hidden, lists)
 
 
 def check_index(system):
@@ -472,7 +485,7 @@ def step(system, op, check):
     pyslice = None if sl is None else slice(sl[0], sl[1], sl[2])
     system.f.reset_log()
     try:
-        lp.setFrameSet(system.fr, pyslice, None if chs is None else list(chs))
+        lp.setFrameSet(system.fr, pyslice, system.channel_list(chs))
     except Exception as err:  # noqa
         sig = {'kind': 'load_raises', 'exc': type(err).__name__}
         if sl is not None and (None in sl[:2] or min(x for x in sl[:2] if x is not None) < 0 or (sl[1] is not None and sl[1] > n)):
@@ -718,6 +731,8 @@ def gen_B(tier):
             # data records without a format specification in their own logical file: no pass of theirs, nothing added to another
             yield ['file_head', ['pass', spec, 0], 'file_tail', 'file_head', ['orphans', spec2, 1], 'file_tail'], layout, ops1
             yield ['file_head', ['orphans', spec2, 1], ['pass', spec, 0], 'file_tail'], layout, ops1
+            yield [['orphans', spec2, 1], 'file_head', ['pass', spec, 0], 'file_tail'], layout, ops1     # stray records first in the file
+            yield [['orphans', spec2, 1], ['pass', spec, 0]], layout, ops1
             yield ['file_head', ['orphans', spec, 0], 'file_tail', 'file_head', ['pass', spec2, 1], 'file_tail'], layout, \
                 [['load', 0, None, None], ['load', 0, [1, 4, 2], [1]]]
 
